@@ -116,7 +116,7 @@ CHECKS["C13"] = dict(
           "under a strict comparison with the default, the avar segment map compares only with table data, 16.16 products and quotients are formed in 64 bits, the font-supplied clamp bounds are ordered by construction, fixed-point division guards a "
           "zero divisor, and tuples cannot be forged; default_normalize, read from MIR as a decision list over the coordinate and the axis minimum, default and maximum and "
           "evaluated in exact rational arithmetic on a grid with every ordering and tie of the four (degenerate axes and out-of-range coordinates included), equals the "
-          "specification's default normalisation (T13-NORM). Fixed-point rounding (one-unit accuracy) and the avar interpolation arithmetic are not decided."),
+          "specification's default normalisation (T13-NORM). One scan step of the avar segment map, read the same way, equals the specification (T13-SEG). Fixed-point rounding (one-unit accuracy) and monotonicity under rounding are not decided."),
     design_ref="DESIGN.md section 6, C13",
 )
 CHECKS["C16"] = dict(
@@ -130,7 +130,7 @@ CHECKS["C16"] = dict(
           "SCALED_COMPONENT_OFFSET; and of contour walking: the start point and index range of a contour follow the on/off-curve decision table, "
           "the closing-edge look-ahead wraps modulo the contour length, every contour is one move_to..close sub-path, every point is "
           "transformed exactly once, a glyph taken out of a borrowed table is put back on every exit, every point of a contour produces a segment, component "
-          "arguments are read signed/unsigned and 8/16-bit as the flags say. Coordinate decoding arithmetic and the numeric values of offsets and scales are not decided."),
+          "arguments are read signed/unsigned and 8/16-bit as the flags say and are used as an offset only under ARGS_ARE_XY_VALUES, in the outline visitor and in the calculated bounding box alike (T16-ARGXY). Coordinate decoding arithmetic and the numeric values of offsets and scales are not decided."),
     design_ref="DESIGN.md section 6 (C16) and 11.2",
 )
 CHECKS["C17"] = dict(
